@@ -77,14 +77,12 @@ PARAMS = {
 
 
 def fields_equal(a, b):
-    keys = sorted(set(a.fields) | set(b.fields))
+    """every attribute of the directly constructed object `b` exists on `a` with the same value (an attribute that only
+    the updated object carries is never read by a model built from it and is not a behavioural difference)"""
     out = {}
-    for k in keys:
-        if k not in a.fields or k not in b.fields:
-            out[k] = False
-            continue
-        out[k] = Req(a.fields[k], b.fields[k])
-    return out
+    for k in sorted(b.fields):
+        out[k] = Req(a.fields[k], b.fields[k]) if k in a.fields else False
+    return dict(sorted(out.items(), key=lambda kv: kv[1] is False))     # a structurally failed check ends the path: keep those last
 
 
 class Synchronisation(Lemma):
@@ -123,7 +121,7 @@ class Synchronisation(Lemma):
             setattr(a, k, new[k])
         a.initialisation()
         b = cls(**{k: new[k] for k in names})
-        diff = {k: (a.__dict__.get(k), b.__dict__.get(k)) for k in set(a.__dict__) | set(b.__dict__) if not np.isclose(a.__dict__.get(k, np.nan), b.__dict__.get(k, np.nan))}
+        diff = {k: (a.__dict__.get(k, np.nan), b.__dict__[k]) for k in b.__dict__ if not np.isclose(a.__dict__.get(k, np.nan), b.__dict__[k])}
         fld = clause.split("field:")[-1]
         return (fld in diff or (not clause.startswith("field") and bool(diff)), {"class": cn, "differences (updated+initialised, fresh)": {k: [float(x) for x in v] for k, v in diff.items()}})
 
@@ -189,7 +187,140 @@ class Calibration(FunctionContract):
         return out
 
 
-UNITS = [Constraint(), Synchronisation(), Calibration()]
+BSCALLF = z3.Function("BS_CALL", *([z3.RealSort()] * 7))      # (spot, r, d, sigma, strike, maturity) -> Black-Scholes call
+
+
+class AtmCalibration(FunctionContract):
+    """calibrate_model_parameter_to_atm_call (real body; the pricers and calibrate_model_parameter replaced by recorded
+    calls): the target is the call struck at the model's spot with the requested maturity, and the market price handed to
+    the calibration is the Black-Scholes call of the model's OWN spot, rate and dividend yield at the requested volatility."""
+    prop = "C20"
+    target = "rpylib.model.utils:calibrate_model_parameter_to_atm_call"
+    name = "calibrate_model_parameter_to_atm_call"
+
+    def configure(self, interp):
+        from pyvc import ctx
+        G = lambda: ctx.PATH.ghost
+        def bscall(it, f, b):
+            m = b["self"].fields["bs_model"]          # set by the real CFBlackScholes.__init__ (type check included)
+            sig = it.getattr(it.getattr(m, "parameters"), "sigma")
+            args = [it.getattr(m, "spot"), it.getattr(m, "r"), it.getattr(m, "d"), sig, b["strike"], b["maturity"]]
+            G().setdefault("bs_calls", []).append(args)
+            return Sym(BSCALLF(*[as_real_term(lift(a)) for a in args]), "r")
+        interp.hooks["rpylib.numerical.closedform.cfblackscholes:CFBlackScholes.call"] = bscall
+
+        def calib(it, f, b):
+            G().setdefault("calib_calls", []).append(dict(b))
+            return G()["calibrated"]
+        interp.hooks["rpylib.model.utils:calibrate_model_parameter"] = calib
+        interp.hooks["rpylib.model.levymodel.levymodel:LevyModel.levy_exponent"] = lambda it, f, b: ctx.PATH.fresh("psi_at_minus_i", "r")
+
+    def setup(self, vc, case):
+        P = {k: vc.real(k) for k in ("sigma", "p", "eta1", "eta2", "intensity")}
+        vc.assume(And(P["sigma"] >= 0, P["p"] > 0, P["p"] < 1, P["eta1"] > 1, P["eta2"] > 0, P["intensity"] >= 0))
+        par = vc.new("rpylib.model.levymodel.mixed.hem:HEMParameters", **P)
+        spot, r, d = vc.real("spot"), vc.real("r"), vc.real("d")
+        vc.assume(And(spot > 0, r >= 0, d >= 0))
+        model = vc.new("rpylib.model.levymodel.mixed.hem:ExponentialOfHEMModel", spot, r, d, par)
+        lo, hi, T, bsig = vc.real("lo"), vc.real("hi"), vc.real("maturity"), vc.real("bs_sigma")
+        vc.assume(And(lo < hi, T > 0, bsig > 0))
+        vc.ghost.update(model=model, spot=spot, r=r, d=d, T=T, bsig=bsig, interval=(lo, hi), calibrated=vc.real("calibrated_value"))
+        return dict(model=model, parameter="sigma", parameter_interval=(lo, hi), maturity=T, bs_sigma=bsig)
+
+    def ensures(self, result, **a):
+        from pyvc import ctx
+        g = ctx.PATH.ghost
+        calls, bs = g.get("calib_calls", []), g.get("bs_calls", [])
+        out = {"one-calibration-one-black-scholes-price": len(calls) == 1 and len(bs) == 1}
+        if len(calls) != 1 or len(bs) != 1:
+            return out
+        c = calls[0]
+        want = Sym(BSCALLF(*[as_real_term(lift(v)) for v in (g["spot"], g["r"], g["d"], g["bsig"], g["spot"], g["T"])]), "r")
+        prod = c["product"]
+        out["returns-the-calibrated-value"] = result == g["calibrated"]
+        out["calibrates-the-input-model-and-parameter-on-the-given-interval"] = (c["model"] is g["model"]) and c["parameter"] == "sigma" and And(c["parameter_interval"][0] == g["interval"][0], c["parameter_interval"][1] == g["interval"][1])
+        out["market-price-is-the-black-scholes-call-of-the-model's-own-spot-rate-and-dividend"] = c["market_price"] == want
+        out["target-is-the-at-the-money-call-of-the-requested-maturity"] = And(prod.fields["maturity"] == g["T"], prod.fields["payoff"].fields["strike"] == g["spot"],
+                                                                               prod.fields["payoff"].fields["_call_put"] == 1)
+        return out
+
+    def replay(self, model, clause, case):
+        import rpylib.model.utils as U
+        from rpylib.model.utils import create_exponential_of_levy_model
+        from rpylib.model.levymodel.levymodel import ModelType
+        from rpylib.numerical.closedform.cfblackscholes import CFBlackScholes
+        seen = {}
+        orig = U.calibrate_model_parameter
+        U.calibrate_model_parameter = lambda **kw: seen.update(kw) or 0.123
+        try:
+            m = create_exponential_of_levy_model(ModelType.HEM)(spot=90.0, r=0.03, d=0.04)
+            U.calibrate_model_parameter_to_atm_call(model=m, parameter="sigma", parameter_interval=(0.0, 1.0), maturity=0.7, bs_sigma=0.2)
+        finally:
+            U.calibrate_model_parameter = orig
+        bs = create_exponential_of_levy_model(ModelType.BLACKSCHOLES)(spot=90.0, r=0.03, d=0.04, sigma=0.2)
+        want = float(np.ravel(CFBlackScholes(bs).call(strike=90.0, maturity=0.7))[0])
+        got = float(np.ravel(seen["market_price"])[0])
+        bad = abs(got - want) > 1e-10 or seen["product"].maturity != 0.7 or float(np.ravel(seen["product"].payoff.strike)[0]) != 90.0
+        return (bool(bad), {"spot": 90.0, "r": 0.03, "d": 0.04, "bs_sigma": 0.2, "maturity": 0.7, "market_price_used": got, "black_scholes_call": want})
+
+
+class DefaultCalibration(FunctionContract):
+    """run_default_calibration (real body; calibrate_model_parameter_to_atm_call replaced by its contract): the returned
+    model has the input's type, spot, rate and dividend yield and a re-initialised COPY of the parameters in which only the
+    default parameter was replaced by the calibrated value; the input model and its parameters are untouched."""
+    prop = "C20"
+    target = "rpylib.model.utils:run_default_calibration"
+    name = "run_default_calibration"
+
+    def configure(self, interp):
+        from pyvc import ctx
+        G = lambda: ctx.PATH.ghost
+
+        def atm(it, f, b):
+            G().setdefault("atm_calls", []).append(dict(b))
+            return G()["calibrated"]
+        interp.hooks["rpylib.model.utils:calibrate_model_parameter_to_atm_call"] = atm
+        interp.hooks["rpylib.model.levymodel.levymodel:LevyModel.levy_exponent"] = lambda it, f, b: ctx.PATH.fresh("psi_at_minus_i", "r")
+
+    def setup(self, vc, case):
+        P = {k: vc.real(k) for k in ("sigma", "p", "eta1", "eta2", "intensity")}
+        vc.assume(And(P["sigma"] >= 0, P["p"] > 0, P["p"] < 1, P["eta1"] > 1, P["eta2"] > 0, P["intensity"] >= 0))
+        par = vc.new("rpylib.model.levymodel.mixed.hem:HEMParameters", **P)
+        spot, r, d = vc.real("spot"), vc.real("r"), vc.real("d")
+        vc.assume(And(spot > 0, r >= 0, d >= 0))
+        model = vc.new("rpylib.model.levymodel.mixed.hem:ExponentialOfHEMModel", spot, r, d, par)
+        T, bsig, cal = vc.real("maturity"), vc.real("bs_sigma"), vc.real("calibrated_value")
+        vc.assume(And(T > 0, bsig > 0, cal >= 0, cal <= 1))
+        vc.ghost.update(model=model, par=par, P=P, snap=dict(par.fields), spot=spot, r=r, d=d, T=T, bsig=bsig, calibrated=cal)
+        return dict(model=model, maturity=T, bs_sigma=bsig)
+
+    def ensures(self, result, **a):
+        from pyvc import ctx
+        g = ctx.PATH.ghost
+        calls = g.get("atm_calls", [])
+        out = {"one-atm-calibration": len(calls) == 1}
+        if len(calls) != 1:
+            return out
+        c = calls[0]
+        par, model = g["par"], g["model"]
+        out["calibrates-the-input-model-to-the-requested-maturity-and-volatility"] = (c["model"] is model) and And(c["maturity"] == g["T"], c["bs_sigma"] == g["bsig"])
+        out["default-parameter-and-interval"] = c["parameter"] == "sigma" and And(c["parameter_interval"][0] == 0, c["parameter_interval"][1] == 1)
+        ok_type = isinstance(result, Obj) and result.cls is model.cls
+        out["same-model-type"] = ok_type
+        if ok_type:
+            np_ = result.fields["levy_model"].fields["parameters"]
+            out["same-spot-rate-dividend"] = And(result.fields["spot"] == g["spot"], result.fields["r"] == g["r"], result.fields["d"] == g["d"])
+            out["parameters-are-a-copy"] = np_ is not par
+            out["calibrated-parameter-set"] = np_.fields["sigma"] == g["calibrated"]
+            out["other-parameters-kept"] = And(*[np_.fields[k] == g["P"][k] for k in ("p", "eta1", "eta2", "intensity")])
+            xi = np_.fields["p"] * np_.fields["eta1"] / (np_.fields["eta1"] - 1) + (1 - np_.fields["p"]) * np_.fields["eta2"] / (np_.fields["eta2"] + 1) - 1
+            out["derived-parameters-re-initialised"] = np_.fields["_xi"] == xi
+        out["input-parameters-untouched"] = And(*[par.fields[k] == v if is_sym(v) or isinstance(v, (int, float)) else par.fields[k] is v for k, v in g["snap"].items()])
+        out["input-model-untouched"] = model.fields["levy_model"].fields["parameters"] is par
+        return out
+
+
+UNITS = [Constraint(), Synchronisation(), Calibration(), AtmCalibration(), DefaultCalibration()]
 ASSUMPTIONS = ["A1: floats are mathematical reals; np.power / gamma / sqrt are (uninterpreted) functions of their arguments"]
 TRUSTED_BASE = ["z3 5.1", "pyvc interpreter + numpy/scipy models"]
 BOUNDED = []
